@@ -248,7 +248,8 @@ Definition pkt_ok (p : packet) : Prop :=
   (forall t, p_ori p = Some t -> exists k, bound cfg (p_src p) (p_token p) (p_dst p) = Some (t, k)) /\
   (p_status p = Sent -> p_code p = 0) /\
   (p_status p = RecvOk -> p_code p = 0) /\ (p_status p = AckOk -> p_code p = 0) /\
-  (p_status p = RecvErr -> p_code p <> 0) /\ (p_status p = Refunded -> p_code p <> 0).
+  (p_status p = RecvErr -> p_code p <> 0) /\ (p_status p = Refunded -> p_code p <> 0) /\
+  (p_src p < nchains cfg)%nat /\ (p_dst p < nchains cfg)%nat.
 
 Definition wf (s : state) : Prop :=
   uniq (packets s) /\
@@ -279,7 +280,7 @@ Qed.
 
 Lemma transfer_chain_spec c cs0 u tok amt dst rcv cd cb ftok fee cs p :
   transfer_chain cfg c cs0 u tok amt dst rcv cd cb ftok fee = Some (cs, p) ->
-  c <> dst /\
+  c <> dst /\ (c < nchains cfg)%nat /\ (dst < nchains cfg)%nat /\
   p = {| p_src := c; p_dst := dst; p_seq := next_seq cs0 dst; p_sender := u; p_recv := rcv; p_token := tok;
          p_ori := p_ori p; p_amount := amt; p_cd := cd; p_cb := cb;
          p_status := Sent; p_code := 0; p_delivered := 0; p_refunded := 0; p_feepaid := 0 |} /\
@@ -292,15 +293,16 @@ Lemma transfer_chain_spec c cs0 u tok amt dst rcv cd cb ftok fee cs p :
       bind_amt cs = upd_tc (bind_amt cs0) tok dst (bind_amt cs0 tok dst - amt * k))).
 Proof.
   unfold transfer_chain.
-  destruct (Nat.eqb c dst || negb (Nat.ltb dst (nchains cfg))) eqn:E1; [discriminate|].
+  destruct (Nat.eqb c dst || negb (Nat.ltb dst (nchains cfg)) || negb (Nat.ltb c (nchains cfg))) eqn:E1; [discriminate|].
   destruct ((amt =? 0) && cd_is_none cd); [discriminate|].
   destruct (take_tokens cfg c cs0 (User u) tok amt dst) as [[cs1 ori]|] eqn:E2; [|discriminate].
   destruct (take_fee cs1 (User u) ftok fee) as [cs2|] eqn:E3; [|discriminate].
   intro H; inv H. cbn.
-  apply orb_false_iff in E1 as [E1 _]. apply Nat.eqb_neq in E1.
+  apply orb_false_iff in E1 as [E1 E1c]. apply orb_false_iff in E1 as [E1 E1d]. apply Nat.eqb_neq in E1.
+  apply negb_false_iff, Nat.ltb_lt in E1c, E1d.
   apply take_tokens_cases in E2 as (N1 & _ & _ & _ & E2).
   apply take_fee_same in E3 as (F1 & F2 & F3 & _).
-  split; [exact E1|]. split; [reflexivity|]. split; [rewrite F3, N1; reflexivity|].
+  split; [exact E1|]. split; [exact E1c|]. split; [exact E1d|]. split; [reflexivity|]. split; [rewrite F3, N1; reflexivity|].
   rewrite F1, F2.
   destruct E2 as [(A1 & A2 & A3)|[(A1 & A2 & A3 & A4 & A5)|(A1 & o & k & A2 & A3 & A4 & A5 & A6)]].
   - left. subst. auto.
@@ -341,7 +343,7 @@ Lemma transfer_inv s c u tok amt dst rcv cd cb ftok fee cs p :
   transfer_chain cfg c (chains s c) u tok amt dst rcv cd cb ftok fee = Some (cs, p) ->
   Inv (set_chain s c cs (packets s ++ [p])).
 Proof.
-  intros [Hw Hc] H. apply transfer_chain_spec in H as (Hne & Hp & Hn & Hcases).
+  intros [Hw Hc] H. apply transfer_chain_spec in H as (Hne & Hcn & Hdn & Hp & Hn & Hcases).
   assert (Hsrc : p_src p = c) by (rewrite Hp; reflexivity).
   assert (Hdst : p_dst p = dst) by (rewrite Hp; reflexivity).
   assert (Hseq : p_seq p = next_seq (chains s c) dst) by (rewrite Hp; reflexivity).
@@ -358,7 +360,7 @@ Proof.
         rewrite chains_set_chain. destruct (Nat.eqb_spec c (p_src q)) as [->|]; [|exact Hlt].
         rewrite Hn. unfold upd1. destruct (Nat.eqb_spec dst (p_dst q)) as [->|]; [lia|exact Hlt].
       * split.
-        -- unfold pkt_ok. rewrite Hsrc, Hdst, Htok, Hst, Hcode. repeat split; try congruence.
+        -- unfold pkt_ok. rewrite Hsrc, Hdst, Htok, Hst, Hcode. repeat split; try congruence; try assumption.
            intros t Ht. destruct Hcases as [(_ & A & _)|[(_ & _ & A & _)|(_ & o & k & A1 & A2 & _)]]; try congruence.
            exists k. congruence.
         -- rewrite chains_set_chain, Hsrc, Nat.eqb_refl, Hn, Hdst, Hseq. unfold upd1. rewrite Nat.eqb_refl. lia.
@@ -447,7 +449,7 @@ Proof.
       { intros q1 E1 E2 E3. rewrite chains_set_chain, E1, E2, E3. destruct (Nat.eqb_spec dst (p_src q0)) as [->|]; [rewrite Hnext|]; exact Hlt. }
       destruct (key_is src dst sq q0); [|split; [exact Hok|apply Hlt'; reflexivity]].
       split; [|apply Hlt'; reflexivity].
-      destruct Hok as (O1 & O2 & O3 & O4 & O5 & O6 & O7). unfold pkt_ok; cbn.
+      destruct Hok as (O1 & O2 & O3 & O4 & O5 & O6 & O7 & O8 & O9). unfold pkt_ok; cbn.
       destruct (code =? 0) eqn:Ec; [apply N.eqb_eq in Ec|apply N.eqb_neq in Ec]; repeat split; auto; try congruence.
   - intros A B t HAB. specialize (Hc A B t HAB). cbn [packets set_chain]. rewrite !chains_set_chain.
     pose proof (sum_contrib_update A B t src dst sq (on_recv code d) (packets s) p Hu Hl) as Hsum.
@@ -553,14 +555,14 @@ Proof.
       { intros q1 E1 E2 E3. rewrite chains_set_chain, E1, E2, E3. destruct (Nat.eqb_spec src (p_src q0)) as [->|]; [rewrite Hnext|]; exact Hlt. }
       destruct (key_is src dst sq q0); [|split; [exact Hok|apply Hlt'; reflexivity]].
       split; [|apply Hlt'; reflexivity].
-      destruct Hok as (O1 & O2 & O3 & O4 & O5 & O6 & O7). unfold pkt_ok; cbn.
+      destruct Hok as (O1 & O2 & O3 & O4 & O5 & O6 & O7 & O8 & O9). unfold pkt_ok; cbn.
       destruct (p_code q0 =? 0) eqn:Ec; [apply N.eqb_eq in Ec|apply N.eqb_neq in Ec]; repeat split; auto; try congruence.
   - intros A B t HAB. specialize (Hc A B t HAB). cbn [packets set_chain]. rewrite !chains_set_chain.
     pose proof (sum_contrib_update A B t src dst sq (on_ack r) (packets s) p Hu Hl) as Hsum.
     assert (E : contrib A B t (on_ack r p) = 0).
     { apply contrib_done. cbn. destruct (p_code p =? 0); reflexivity. }
     rewrite E, N.add_0_r in Hsum.
-    destruct Hpok as (O1 & O2 & O3 & O4 & O5 & O6 & O7).
+    destruct Hpok as (O1 & O2 & O3 & O4 & O5 & O6 & O7 & O8 & O9).
     unfold is_received in Hs.
     destruct Hcases as [(A1 & _ & A3 & A4)|[(A1 & A2 & A3 & A4 & A5 & A6 & A7)|(A1 & A2 & t0 & o & k & A3 & A4 & A5 & A6 & A7)]].
     + (* success acknowledgement: the packet was delivered, nothing is given back *)
